@@ -89,6 +89,9 @@ struct Format : Profile {
     void load(Img &im, const std::string &path)
     {
         im.rd.f        = simfs::file_bytes(simfs::disk(), path);
+        // the workload's Hdupdd aliases carry tags 8400..8402: an alias and its original start at the same offset, and
+        // the original may have grown in place (it was the last element of the file) after the alias was made
+        im.rd.declared_alias = [](const spec::DD &a, const spec::DD &b) { return (a.base() >= 8400 && a.base() <= 8402) || (b.base() >= 8400 && b.base() <= 8402); };
         im.rd.external = [](const std::string &name, std::vector<uint8_t> &out) {
             auto &d = simfs::disk();
             if (!d.count(name))
